@@ -272,7 +272,7 @@ def mutants(rel: str) -> list[dict]:
 def make_scratch(mut: dict) -> Path:
     WORK.mkdir(parents=True, exist_ok=True)
     scratch = Path(tempfile.mkdtemp(prefix="m.", dir=WORK))
-    subprocess.run(["rsync", "-a", "--exclude", ".git", "--exclude", "__pycache__", "--exclude", "docs", "--exclude", "examples",
+    subprocess.run(["rsync", "-a", "--exclude", ".git", "--exclude", "__pycache__", "--exclude", "docs",
                     f"{REPO}/", f"{scratch}/"], check=True)
     target = scratch / "src" / "ropt" / mut["file"]
     raw = target.read_bytes()
@@ -342,6 +342,10 @@ def main() -> int:
                 for m in ms:
                     print("  ", m["line"], m["desc"], "|", m["src_line"])
         return 0
+    base = stage1({"file": args.files[0], "start": 0, "end": 0, "new": ""})
+    if base["tests"] != "pass":
+        print("baseline scratch copy does not pass the test-suite; refusing to sweep")
+        return 2
     done = set()
     out_path = Path(args.out)
     if out_path.exists():
